@@ -297,6 +297,11 @@ func (iter *Iterator) Close() error {
 		return iter.err
 	}
 	err := iter.rows.Close()
+	// An error that stopped the iteration early (a failure while fetching a
+	// row, a cancelled context) is only reported by rows.Err.
+	if rerr := iter.rows.Err(); rerr != nil {
+		err = rerr
+	}
 	iter.rows = nil
 	if iter.err != nil {
 		return iter.err
